@@ -550,7 +550,9 @@ func (e *c18Env) finish() {
 
 // ---- random cases ----
 
-var c18Universe = []string{"", "a", "a/b", "b", "ab", "a/b/c"}
+// (names with dashes: the digest's internal representation is dash separated,
+// so "x-a" must not be mistaken for "a", nor "a-b/c" for "b/c")
+var c18Universe = []string{"", "a", "a/b", "b", "ab", "a/b/c", "x-a", "a-b/c", "b-"}
 
 type c18Case struct {
 	Names     []string
